@@ -14,6 +14,7 @@ import MosaikModel.Closure
 import MosaikModel.Sched
 import MosaikModel.Deliver
 import MosaikModel.WF
+import MosaikModel.RunShutdown
 namespace Mosaik.Driver
 open Mosaik
 
@@ -334,6 +335,15 @@ def handle (ss : Session) : P (Session × String) := do
     match deliver ss.cfg ss.st a with
     | none => pure (ss, "not-enabled")
     | some st => pure (report { ss with st := st })
+  | "rs.run" => do
+    -- World.run / shutdown control flow: n simulators, how the run phase ended
+    let n ← nat; let kind ← tok
+    let e : RunShutdown.RunEnd := match kind with
+      | "ok" => .ok | "keyboard" => .keyboardInterrupt | "remote-exception" => .remoteException | _ => .other 1
+    let (w, sf) := RunShutdown.run (fun _ => none) { n := n } e
+    let (w2, _) := RunShutdown.shutdown (fun _ => none) w
+    pure (ss, (match sf with | .returned => "returned" | .raised _ => "raised") ++
+      s!" closed={w.loopClosed} stops={sList w.stops.reverse} second-shutdown-noop={decide (w2 = w)}")
   | "wf" => do
     -- are the hypotheses of the scheduler theorems met by the configuration of the current run?
     pure (ss, if ss.cfg.wfB then "wf" else if ss.cfg.rt.isSome then "rt" else "not-wf")
